@@ -577,3 +577,58 @@ M('c16-non-root-from-files-only', 'C16', 'R16.6', [(CA,
   "        for operation in operations:\n            non_root_operations.update(operation.suboperations)",
   "        for operation in operations:\n            if operation.suboperations:\n"
   "                non_root_operations.update(operation.suboperations[:1])")])
+
+# ---- round-2 driven rules ------------------------------------------------------
+M('c09-ownership-break-first', ['C09', 'C12'], ['R9.6', 'R12.7'], [(BD,
+  "                if count > 0:\n"
+  "                    # Another thread reserved this directory before us. It\n"
+  "                    # might not have registered the directory as created (if\n"
+  "                    # it merely observed the directory we had just created),\n"
+  "                    # so make sure someone owns the directories we created.\n"
+  "                    for dir_ in created_dirs:\n"
+  "                        norm_cased_dir = os.path.normcase(dir_)\n"
+  "                        if norm_cased_dir not in self._created_dirs_map:\n"
+  "                            self._created_dirs_map[norm_cased_dir] = dir_\n"
+  "                            self._error_created_dirs.discard(norm_cased_dir)\n"
+  "                            self._removed_files.discard(norm_cased_dir)\n"
+  "                            locked_created_dirs.append(dir_)\n"
+  "                    break\n",
+  "                if count > 0:\n                    break\n")],
+  'reverts the ownership fix 3dd2752')
+M('c09-ticket-split', ['C09', 'C02', 'C03'], ['R9.7', 'R2.6b', 'R3.5'], [(BK,
+  "        with self._lock:\n            value = self._next_backup_index\n"
+  "            self._next_backup_index += 1\n",
+  "        with self._lock:\n            value = self._next_backup_index\n"),
+  (BK,
+  "        with self._lock:\n            self._backups.append((filename, backup_filename))\n        return True",
+  "        with self._lock:\n            self._next_backup_index += 1\n"
+  "            self._backups.append((filename, backup_filename))\n        return True")])
+M('c15-reader-skips-software-tag', 'C15', 'R15.6', [(CA,
+  "        if (not isinstance(cache_json, dict) or\n"
+  "                cache_json.get('software') != Cache._SOFTWARE):",
+  "        if not isinstance(cache_json, dict):")])
+M('c12-dirs-before-cache-file', 'C12', 'R12.3b', [(FB,
+  "        FileBuilder._try_to_remove_file(cache_filename)\n        FileBuilder._remove_empty_dirs(cache.created_dirs())",
+  "        FileBuilder._remove_empty_dirs(cache.created_dirs())\n        FileBuilder._try_to_remove_file(cache_filename)")])
+M('c16-versions-filtered', ['C16', 'C06'], ['R16.2', 'R6.5'], [(CA,
+  "            'funcVersions': self._func_versions,",
+  "            'funcVersions': {k: v for k, v in self._func_versions.items()\n"
+  "                             if v is not None},")])
+M('c08-finish-after-failed-claim', ['C08', 'C09'], ['R8.3', 'R9.9'], [(FB,
+  "            self._new_cache.start_subbuild(subbuild_key, operation)\n            try:\n"
+  "                operation.return_value = self._call_and_sanitize_return_value(",
+  "            try:\n                self._new_cache.start_subbuild(subbuild_key, operation)\n"
+  "                operation.return_value = self._call_and_sanitize_return_value(")])
+M('c08-presence-test-by-value', 'C08', 'R8.2', [(CA,
+  "        if norm_cased_filename in self._norm_cased_files:\n            raise RuntimeError(",
+  "        if self._norm_cased_files.get(norm_cased_filename) is not None:\n            raise RuntimeError(")])
+M('c16-reader-encoding-mismatch', ['C16', 'C15'], ['R16.3', 'R15.6'], [(CA,
+  "        with gzip.open(filename, 'wt') as file_:",
+  "        with gzip.open(filename, 'wt', encoding='utf-8',\n"
+  "                       errors='surrogateescape') as file_:")])
+M('c10-conditional-release', ['C10', 'C14', 'C09'], ['R10.2', 'R14.1', 'R9.8'], [(FB,
+  "            self._new_cache.start_building_file(filename)\n        except Exception:\n"
+  "            self._build_dirs.error_building_file(filename)\n            raise\n",
+  "            self._new_cache.start_building_file(filename)\n        except Exception:\n"
+  "            if locked_created_dirs:\n"
+  "                self._build_dirs.error_building_file(filename)\n            raise\n")])
